@@ -84,3 +84,57 @@ pub proof fn lemma_seg_wf_idx_strict(s: &Segment)
         assert(batch_last(f, i) < batch_last(f, j));
     }
 }
+
+// ---- LINK harnesses: the contracts other units ASSUME for functions proved here, proved from the real ones ---------------------
+// Each harness has the assuming unit's stub signature, its `requires` / `ensures` copied VERBATIM from that unit's prelude.rs, and a
+// body that is ONE call of the real extracted function: Verus proves "real contract ==> assumed contract" on every run.
+// A later edit of a stub has to be mirrored here (and vice versa).
+impl Segment {
+    // copied from units/read_disk/prelude.rs, stub `Segment::load_highest_lower_bound_index` (idx_strict / is_first_ge / none_ge there
+    // are vx/prelude/slices.rs, verbatim copies of this unit's prelude)
+    // label: C02.link.read_disk.load_highest_lower_bound_index
+    pub fn link_read_disk_load_highest_lower_bound_index(&self, indices: &[Index], start_offset: u32, end_offset: u32) -> (r: Result<IndexRange, IggyError>)
+        requires
+            idx_strict(indices@),
+            start_offset + self.start_offset <= u64::MAX,
+        ensures
+            // [C02.idx.start]
+            r is Ok ==> exists|k: int| is_first_ge(indices@, k, start_offset as int) && r->Ok_0.start == indices@[k],
+            // [C02.idx.end]
+            r is Ok ==> (exists|k: int| is_first_ge(indices@, k, end_offset as int) && r->Ok_0.end == indices@[k])
+                || (none_ge(indices@, end_offset as int) && r->Ok_0.end == indices@.last()),
+            // [C02.idx.err]
+            r is Err <==> none_ge(indices@, start_offset as int),
+    {
+        self.load_highest_lower_bound_index(indices, start_offset, end_offset)
+    }
+
+    // copied from units/read_partition/prelude.rs, stub `Segment::get_messages_by_offset` (seq_keep / off_in / slice_of there are verbatim
+    // copies of this unit's prelude; `seg_all` is vx/prelude/segview.rs; `max_int` is defined below as in read_partition's prelude)
+    // label: C02.link.read_partition.get_messages_by_offset
+    pub fn link_read_partition_get_messages_by_offset(&self, offset: u64, count: u32) -> (r: Result<Vec<RetainedMessage>, IggyError>)
+        requires
+            contig(seg_all(self), self.start_offset as int),
+            self.unsaved_messages is Some ==> acc_wf(&self.unsaved_messages->0),
+            offset + count <= u64::MAX, self.start_offset + count <= u64::MAX,
+            disk_tier_wf(self),
+            max_int(offset as int, self.start_offset as int) - self.start_offset <= u32::MAX,
+            2 * max_int(offset as int, self.start_offset as int) + count <= u64::MAX,
+        ensures r is Ok ==> r->Ok_0@ == slice_of(seg_all(self), max_int(offset as int, self.start_offset as int),
+                                                 max_int(offset as int, self.start_offset as int) + count - 1),
+    {
+        self.get_messages_by_offset(offset, count)
+    }
+
+    // copied from units/read_partition/prelude.rs, stub `Segment::get_messages_by_timestamp` (ts_sorted / ts_slice_of / take / ts_ge there
+    // are verbatim copies of this unit's prelude)
+    // label: C02.link.read_partition.get_messages_by_timestamp
+    pub fn link_read_partition_get_messages_by_timestamp(&self, start_timestamp: u64, count: usize) -> (r: Result<Vec<RetainedMessage>, IggyError>)
+        requires ts_sorted(seg_buf(self)), seg_buf(self).len() + count <= usize::MAX,
+        ensures r is Ok ==> r->Ok_0@ == ts_slice_of(seg_all(self), start_timestamp as int, count as int),
+    {
+        self.get_messages_by_timestamp(start_timestamp, count)
+    }
+}
+// (vocabulary of units/read_partition/prelude.rs used by the copied clauses)
+pub open spec fn max_int(a: int, b: int) -> int { if a >= b { a } else { b } }
